@@ -567,6 +567,60 @@ def byte_var(c, w, k):
     return v
 
 
+def bytes_of_window(c, seq, nbytes):
+    """the first `nbytes` bytes of a composed content, one linear expression per byte (None when some byte is not known):
+    bytes of an identified window are its byte variables, a big-endian number of up to 8 bytes is split into named byte variables
+    tied to it (E = sum byte_j * 256^(m-1-j)), zeros are 0"""
+    from absint.interp import hash_str
+    w = seq.content() if isinstance(seq, Seq) else None
+    if w is None:
+        return None
+    if w[0] == "sub":
+        # a sub-window: take the bytes of the whole and slice (a window boundary may fall inside a number's bytes)
+        lo_ = c.st.sys.const_value(w[3])
+        if lo_ is None:
+            return None
+        inner = bytes_of_window(c, Seq(w[2], None, None, None, w[1]), int(lo_) + nbytes)
+        return inner[int(lo_):] if inner is not None else None
+    segs = segments(c.st, w, seq.len)
+    if segs is None:
+        return None
+    out = []
+    for sg in segs:
+        if len(out) >= nbytes:
+            break
+        if sg[0] == "be" and sg[2] is not None and sg[1] <= 8:
+            m = sg[1]
+            hx = hash_str("%r|%d" % (c.st.sys.reduce(sg[2]), m)) & 0xffffffffffff
+            bs = []
+            acc = Lin.const(0)
+            for j in range(m):
+                nm = "byte%d_%x" % (j, hx)
+                v = Lin.var(nm)
+                c.st.sys.add_range(v, 0, 255)
+                c.it.purefun[nm] = set(sg[2].t)
+                bs.append(v)
+                acc = acc + v.scale(1 << (8 * (m - 1 - j)))
+            c.st.sys.add_eq(sg[2] - acc)
+            out += bs
+        elif sg[0] == "zero":
+            n_ = c.st.sys.const_value(sg[1])
+            if n_ is None:
+                return None
+            out += [Lin.const(0)] * int(min(n_, nbytes))
+        elif sg[0] == "win" and not str(sg[1]).startswith(("orig:", "unknown", "@", "fill:")):
+            n_ = c.st.sys.const_value(sg[3])
+            if n_ is None:
+                n_ = nbytes - len(out) if c.st.sys.entails_ge(sg[3] - (nbytes - len(out))) else None
+            if n_ is None:
+                return None
+            for k in range(int(min(n_, nbytes - len(out)))):
+                out.append(byte_var(c, (sg[1], sg[2]), k))
+        else:
+            return None
+    return out[:nbytes] if len(out) >= nbytes else None
+
+
 def define_over_bytes(c, e, w, n):
     """e is the big-endian number in the n bytes of window w: tie it to the byte variables (up to 8 bytes exactly; a 16-byte
     number as 2^96 * its first four bytes + an opaque 96-bit rest)"""
